@@ -11,7 +11,8 @@ TARGETS = ['selfies/grammar_rules.py::get_selfies_from_index',
            'selfies/utils/smiles_utils.py::bond_to_smiles',
            'selfies/encoder.py::_check_bond_constraints',
            'selfies/utils/smiles_utils.py::atom_to_smiles',
-           'selfies/utils/smiles_utils.py::smiles_to_atom']
+           'selfies/utils/smiles_utils.py::smiles_to_atom',
+           'selfies/utils/smiles_utils.py::tokenize_smiles']
 EXPLANATION = (
     "Mixed. PROVED: exception-freedom obligations of the functions under contract listed in functions_under_contract "
     "(each operation that can raise is proved safe or covered by the function's raises clause; get_selfies_from_index "
@@ -30,7 +31,13 @@ PIECES = ['C', 'N', 'O', 'c', 'n', 'o', 's', 'F', 'Cl', 'Br', 'B', 'P', 'S', 'I'
           'C11', 'C1C1', 'C12CC12', 'C1CC1', 'C1.C1', 'C1', '1C', 'C1CC2', 'C=1CC-1', 'C=1CC#1', 'C/1CC\\1', 'C%10CC%10',
           'C%10CC%11', '[Cu]:[Cu]', '[Na]:[Na]', 'c1ccccc1', 'c1cccc1', 'cc', 'c', 'C1=CC=CC=C1', 'c1ccc1', 'n1cccc1',
           '[c-]1cccc1', '[c-]1ccccc1', '[n+]1ccccc1', '[cH-]1cccc1', '[c]1ccccc1', '[b-]1ccccc1', 'b1ccccc1', '[si]1ccccc1',
-          '[te]1cccc1', '[as]1ccccc1', 'p1ccccc1', '[al]1ccccc1']
+          '[te]1cccc1', '[as]1ccccc1', 'p1ccccc1', '[al]1ccccc1',
+          # bond symbols on ring-closure digits, with elements that can and cannot be aromatic
+          ':1', ':2', '=1', '#1', '/1', '\\1', ':%10', '=%10', 'C:1CCF1', 'F:1CC1', '[Cu]:1CC1', 'C:1CC:1', 'C=1CC=1',
+          'F1', 'F:', ':F', 'Cl:1', '[Na]1', '[Na]:1', 'c:1', 'C:1', 'N:1', 'S:1', 'B:1', '[Si]:1', 'I:1',
+          # characters that str.isdigit()/isnumeric()/isalpha() accept but int()/the element tables do not
+          '²', '①', '½', '٣', '%1²', '%²²', '%①①', 'C²CC²', 'C%1²CC%1²', 'Ⅷ', '一', 'µ', 'ß', 'Ω', 'ǅ', 'ⅰ',
+          '[²C]', '[C²]', '[CH²]', '[C+²]', '[C:²]']
 
 
 def run_one(s, strict, attribute):
